@@ -1,6 +1,8 @@
 package engines
 
 import (
+	"github.com/pojntfx/stfs/pkg/zzverif/vsync"
+
 	"encoding/json"
 	"fmt"
 	"os"
@@ -8,6 +10,7 @@ import (
 
 // Dispatch executes one job in the worker.
 func Dispatch(env *Env, kind string, payload json.RawMessage) (interface{}, error) {
+	vsync.ResetClock()
 	switch kind {
 	case "e1":
 		var j E1Job
@@ -39,6 +42,12 @@ func Dispatch(env *Env, kind string, payload json.RawMessage) (interface{}, erro
 			return nil, err
 		}
 		return RunC08(env, &j), nil
+	case "c11":
+		var j C11Job
+		if err := json.Unmarshal(payload, &j); err != nil {
+			return nil, err
+		}
+		return RunC11(env, &j), nil
 	case "e3":
 		var j E3Job
 		if err := json.Unmarshal(payload, &j); err != nil {
